@@ -57,9 +57,16 @@ func VH_C14() {
 	rec := &vRec{}
 	var lgi Logger = New("x")
 	lg := lgi.(*logimp).Entry
-	kind := vChoose(3) // root, child, default logger's own tree
+	kind := vChoose(4) // root, child, default logger's own tree, one of two WithSkip children
 	if kind == 1 {
 		lg = lg.New("child")
+	}
+	n := vChoose(vParam("skip", 2) + 1)
+	if kind == 3 {
+		// the skip count comes from WithSkip; a sibling with another count is derived afterwards
+		base := lg
+		lg = base.WithSkip(n)
+		_ = base.WithSkip(n + 1)
 	}
 	lg.SetWriter(&recW{0, rec}).SetErrorWriter(&recW{0, rec}).SetLevel(TraceLevel)
 	fmtSel := vChoose(3)
@@ -69,12 +76,13 @@ func VH_C14() {
 	case 2:
 		lg.SetColorMode(false)
 	}
-	n := vChoose(vParam("skip", 2) + 1)
 	SetDefault(&logimp{lg})
 	ctx := context.Background()
 	std := logslog.New(&handler4LogSlog{&logimp{lg}})
 	bridge := NewLogLogger(&logimp{lg}, AlwaysLevel) // a severity the bridge forwards whatever its admission test (C15)
-	lg.SetSkip(n) // after the adapter and the bridge exist: the skip count in force is the logger's current one
+	if kind != 3 {
+		lg.SetSkip(n) // after the adapter and the bridge exist: the skip count in force is the logger's current one
+	}
 	stackErr := vC14MakeErr()
 	eps := []func(){
 		func() { vC14Fn, vC14Ln = vHere(); lg.Error("m") }, // Error
